@@ -623,7 +623,7 @@ def check_cli_location(case) -> Verdict:
     with driver.Workspace() as ws:
         _materialise(ws, case)
         res = driver.run_inproc(ws, [_root_arg(ws, case)])
-        res.err = res.err.replace(ws.home, '{HOME}')
+        res.err = res.err.replace(ws.markers, '{MARKERS}').replace(ws.home, '{HOME}')  # (as written in the case)
     ident = res.out[:-1] if res.out.endswith('\n') and res.out.count('\n') == 1 else None
     base = {'files': files, 'plant': plant, 'exit': res.exit_code, 'stdout': res.out[:200], 'stderr': res.err[:1500]}
 
